@@ -108,7 +108,7 @@ Lemma es_rle_decode_bounded n base length b :
   base + length <= n -> bounded n (es_rle_decode base length b).
 Proof. intros. unfold es_rle_decode. apply es_rle_loop_bounded; auto; lia. Qed.
 
-Lemma espnet_bounded n self st : n <= ES_PACKET_SIZE -> bounded n (es_handle n self st).
+Lemma espnet_bounded_any n self st : n <= 2147483647 -> bounded n (es_handle n self st).
 Proof.
   intros Hn. unfold es_handle, ES_DATA_HEADER, ES_PACKET_SIZE, ES_HEAD_SIZE, ES_POLL_SIZE,
     ES_DATA_SIZE, DMX_UNIVERSE_SIZE, ES_OFF_poll_type, ES_OFF_universe, ES_OFF_type, ES_OFF_size,
@@ -118,3 +118,7 @@ Proof.
   - apply es_rle_decode_bounded. lia.
   - intros a. constructor.
 Qed.
+
+(* for the capacity of the real receive buffer *)
+Lemma espnet_bounded n self st : n <= ES_PACKET_SIZE -> bounded n (es_handle n self st).
+Proof. intros Hn. apply espnet_bounded_any. unfold ES_PACKET_SIZE in Hn. lia. Qed.
